@@ -93,7 +93,9 @@ def _install_bitops():
         return orig_or(a, c)
 
     def _or(a, b):
-        if type(b) is int:
+        with NoTracing():  # under tracing type() reports int for symbolic ints too
+            conc = type(b) is int
+        if conc:
             return _or_const(a, b)
         return orig_or(a, b)
 
@@ -111,7 +113,9 @@ def _install_bitops():
         return orig_and(a, c)
 
     def _and(a, b):
-        if type(b) is int:
+        with NoTracing():
+            conc = type(b) is int
+        if conc:
             return _and_const(a, b)
         return orig_and(a, b)
 
@@ -415,7 +419,9 @@ def _install_exact_div():
     orig = SymbolicInt.__truediv__
 
     def _truediv(a, b):
-        if _EXACT_DIV[0] and type(b) is int and b > 0 and (b & (b - 1)) == 0:
+        with NoTracing():
+            conc = type(b) is int
+        if _EXACT_DIV[0] and conc and b > 0 and (b & (b - 1)) == 0:
             with NoTracing():
                 sp = context_statespace()
                 lim = 2 ** 53
